@@ -575,7 +575,8 @@ def run(ctx):
     ctx.floor("C04.K6 eval_compare call in as_const", len(chain), 1)
     for c in chain:
         def srcs(op):
-            return {(o.call.name.split("::")[-1], o.call.bb) for o in flow.origins(ac, op) if o.kind == "call"}
+            thru = lambda k: 0 if (k.name.endswith("Try>::branch") or k.name.endswith("::deref") or k.name.endswith("::clone")) else None
+            return {(o.call.name.split("::")[-1], o.call.bb) for o in flow.origins(ac, op, through_calls=thru) if o.kind == "call"}
         l, r = srcs(c.args[1]), srcs(c.args[2])
         ctx.ob("C04.K6.chain-compares-neighbours", AS_CONST, bool(r) and r < l,
                "the left operand of each link must be the head expression or the previous link's right operand "
@@ -602,6 +603,28 @@ def run(ctx):
                             consts += [o.const.get("int", o.const.get("bool")) for o in flow.origins(ac, k.args[0]) if o.kind == "const"]
                     ok = c.bb not in fblocks and bool(consts) and all(str(x).lower() in ("0", "false") for x in consts)
                     detail = "after a false link: next link reachable=%s, value returned is the constant %s" % (c.bb in fblocks, consts)
+        if not ok:
+            # the verdict of a link may travel as a value (an outcome enum built in a helper, matched by the caller): walk
+            # the paths with the variants known.  After a link that is not true no further link is evaluated and every
+            # bool the folder builds on the way out is the constant false.
+            from .. import typestate
+            tcalls = {t.bb for t in ac.calls_to("minijinja::value::Value::is_true") if any(
+                o.kind == "call" and o.call is c for o in flow.origins(
+                    ac, t.args[0], through_calls=lambda k: 0 if ("branch" in k.name or "deref" in k.name) else None))}
+
+            def on_call(k, st, val):
+                if k.bb in tcalls:
+                    return [("T", ("B", "1")), ("F", ("B", "0"))]
+                return None
+            if tcalls:
+                wr = typestate.explore(prog, ac, "T", on_call)
+                fblocks = {b for (b, st_) in wr.visited_states if st_ == "F"} - tcalls
+                consts = []
+                for k in ac.calls():
+                    if k.bb in fblocks and "From<bool> for minijinja::value::Value" in k.name:
+                        consts += [o.const.get("int", o.const.get("bool")) for o in flow.origins(ac, k.args[0]) if o.kind == "const"] or ["?"]
+                ok = not wr.budget_hit and c.bb not in fblocks and bool(consts) and all(str(x).lower() in ("0", "false") for x in consts)
+                detail = "walked with the verdict known - after a false link: next link reachable=%s, bools built: %s" % (c.bb in fblocks, consts)
         ctx.ob("C04.K6.chain-stops-at-first-false-link", AS_CONST, ok, detail, ac.where(c.bb))
 
 
